@@ -1,7 +1,159 @@
-(* C11 -- placeholder; theorems are added from proofs/ *)
-Require Import Coq.Lists.List Coq.NArith.NArith.
-From Mustache Require Import Res Iter.
+(* C11 -- change detection is quiescent and chunk-precise. Statements only; proofs in proofs/VersionProofs.v.
+   Model: Manager.v (check_and_set, filter_chunks, job_filter), Iter.v (filter_blocks, blocks_count).
+   Proved for all inputs: each version chunk is decided by check_and_set on its own row of stamps (chunk-precise); the
+   filter hands a job exactly the positions of flagged chunks, so only chunks holding a checked stamp newer than the job's
+   last version; a run followed by a second run with no stamp written in between is handed nothing, and the job's own
+   stamps do not re-trigger it; the count of a filtered archetype is the number of positions in flagged chunks.
+   Not covered here: the chunk-size resolution (resolve_chunk) and the history-level statement over scripts. *)
+Require Import Coq.Lists.List Coq.NArith.NArith Coq.ZArith.ZArith Coq.Arith.Arith Coq.micromega.Lia.
+From Mustache Require Import Res Iter Manager Palette Properties_C07.
+From Mustache.proofs Require Import VersionProofs.
 Import ListNotations.
-Example C11_placeholder : unrolled 6 = [0; 1; 2; 3; 4; 5].
-Proof. vm_compute. reflexivity. Qed.
-Print Assumptions C11_placeholder.
+
+(* ---- (2) chunk-precise: flag k and row k of the new stamps are check_and_set of the input row k alone ---- *)
+Theorem C11_chunk_precise : forall nc check set_ last cur todo chunk cv k,
+  lt_all nc check -> lt_all nc set_ -> k < todo ->
+  let r := filter_chunks nc check set_ last cur chunk todo cv in
+  let r0 := check_and_set (row nc (chunk + k) cv) 0 check set_ last cur in
+  nth k (snd r) false = snd r0 /\ row nc (chunk + k) (fst r) = fst r0.
+Proof. exact filter_chunks_chunk_precise. Qed.
+Print Assumptions C11_chunk_precise.
+
+(* the stamps outside the rows looked at are untouched, the vector keeps its length, one flag per chunk *)
+Theorem C11_filter_chunks_frame : forall nc check set_ last cur, lt_all nc check -> lt_all nc set_ ->
+  forall todo chunk cv,
+  let r := filter_chunks nc check set_ last cur chunk todo cv in
+  length (snd r) = todo /\ length (fst r) = length cv /\
+  (forall p, p < nc * chunk \/ nc * (chunk + todo) <= p -> nth p (fst r) 0%N = nth p cv 0%N).
+Proof.
+  intros nc check set_ last cur Hc Hs todo chunk cv.
+  destruct (filter_chunks_spec nc check set_ last cur Hc Hs todo chunk cv) as (H1 & H2 & _ & _ & H5). auto.
+Qed.
+Print Assumptions C11_filter_chunks_frame.
+
+Example C11_chunk_precise_example :
+  lt_all 2 [1] /\ lt_all 2 [0] /\ 1 < 3 /\
+  filter_chunks 2 [1] [0] 0 2 0 3 [0; 0; 0; 1; 0; 0]%N = ([0; 0; 2; 1; 0; 0]%N, [false; true; false]) /\
+  check_and_set (row 2 1 [0; 0; 0; 1; 0; 0]%N) 0 [1] [0] 0 2 = ([2; 1]%N, true).
+Proof. split; [repeat constructor|]. split; [repeat constructor|]. split; [lia|]. split; reflexivity. Qed.
+
+(* ---- (4) quiescence of one row ---- *)
+Theorem C11_row_quiet : forall vers base check set_ last cur,
+  last <> WV_NULL -> check <> [] -> (forall i, In i check -> (nth (base + i) vers 0 <= last)%N) ->
+  check_and_set vers base check set_ last cur = (vers, false).
+Proof. exact check_and_set_quiet. Qed.
+Print Assumptions C11_row_quiet.
+
+(* a run followed by a run as a caught-up job (last' = the first run's current version; any new current version): the
+   second run sees nothing and writes nothing -- the job's own stamps do not re-trigger it *)
+Theorem C11_no_self_retrigger : forall vers base check set_ last cur cur2,
+  cur <> WV_NULL -> check <> [] -> (forall i, In i check -> (nth (base + i) vers 0 <= cur)%N) ->
+  let v1 := fst (check_and_set vers base check set_ last cur) in
+  check_and_set v1 base check set_ cur cur2 = (v1, false).
+Proof. exact check_and_set_twice_quiet. Qed.
+Print Assumptions C11_no_self_retrigger.
+
+Example C11_no_self_retrigger_example :
+  (3 <> WV_NULL)%N /\ [0; 1] <> [] /\ (forall i, In i [0; 1] -> (nth (2 + i) [0; 0; 1; 2]%N 0 <= 3)%N) /\
+  check_and_set [0; 0; 1; 2]%N 2 [0; 1] [0; 1] 1 3 = ([0; 0; 3; 3]%N, true) /\
+  check_and_set [0; 0; 3; 3]%N 2 [0; 1] [0; 1] 3 4 = ([0; 0; 3; 3]%N, false).
+Proof.
+  split; [discriminate|]. split; [discriminate|]. split; [|split; reflexivity].
+  intros i [H|[H|[]]]; subst i; vm_compute; discriminate.
+Qed.
+
+(* the bound on the stamps is needed: a stamp ahead of the current version (say after the 32-bit version wrapped) makes a
+   job that does not write that component run again and again *)
+Example C11_retrigger_with_stamp_ahead :
+  check_and_set [5%N] 0 [0] [] 0 3 = ([5%N], true) /\ check_and_set [5%N] 0 [0] [] 3 4 = ([5%N], true).
+Proof. split; reflexivity. Qed.
+
+(* lifted to the chunks of an archetype *)
+Theorem C11_filter_chunks_quiet : forall nc check set_ last cur todo chunk cv,
+  last <> WV_NULL -> check <> [] ->
+  (forall k i, k < todo -> In i check -> (nth (nc * (chunk + k) + i) cv 0 <= last)%N) ->
+  filter_chunks nc check set_ last cur chunk todo cv = (cv, repeat false todo).
+Proof. exact filter_chunks_quiet. Qed.
+Print Assumptions C11_filter_chunks_quiet.
+
+Example C11_filter_chunks_quiet_example :
+  (2 <> WV_NULL)%N /\ [1] <> [] /\
+  (forall k i, k < 3 -> In i [1] -> (nth (2 * (0 + k) + i) [0; 0; 2; 1; 0; 0]%N 0 <= 2)%N) /\
+  filter_chunks 2 [1] [0] 2 3 0 3 [0; 0; 2; 1; 0; 0]%N = ([0; 0; 2; 1; 0; 0]%N, [false; false; false]).
+Proof.
+  split; [discriminate|]. split; [discriminate|]. split; [|reflexivity].
+  intros k i Hk [H|[]]. subst i. destruct k as [|[|[|k]]]; [| | |lia]; vm_compute; discriminate.
+Qed.
+
+(* ---- the whole filter ---- *)
+(* precise: whatever the filter hands to the job lies in a version chunk in which a checked component carries a stamp
+   newer than the job's last version (or the job never ran, or checks no component of that archetype) *)
+Theorem C11_job_filter_precise : forall s j s1 fas ai a idx fa,
+  job_filter s j = Ok (s1, fas) ->
+  nth_error (archs s) ai = Some a -> jmatch j a = true -> 0 < am_chunk a -> ver_wf a ->
+  In fa fas -> fa_arch fa = ai -> In idx (selected_of_blocks (fa_blocks fa)) ->
+  idx < length (am_ents a) /\
+  (j_last j = WV_NULL \/ jcheck j a = [] \/
+   exists i, In i (jcheck j a) /\ (j_last j < nth (length (am_gver a) * (idx / am_chunk a) + i) (am_cver a) 0)%N).
+Proof. exact job_filter_precise. Qed.
+Print Assumptions C11_job_filter_precise.
+
+Example C11_job_filter_precise_example :
+  exists s1 fas a fa,
+  job_filter s_ex (j_ex 0) = Ok (s1, fas) /\
+  nth_error (archs s_ex) 0 = Some a /\ jmatch (j_ex 0) a = true /\ 0 < am_chunk a /\ ver_wf a /\
+  In fa fas /\ fa_arch fa = 0 /\ In 3 (selected_of_blocks (fa_blocks fa)) /\ selected_of_blocks (fa_blocks fa) = [2; 3].
+Proof.
+  eexists. eexists. eexists. eexists. split; [vm_compute; reflexivity|]. split; [vm_compute; reflexivity|].
+  split; [vm_compute; reflexivity|]. split; [vm_compute; lia|]. split; [vm_compute; reflexivity|].
+  split; [left; reflexivity|]. split; [reflexivity|]. split; [vm_compute; right; left; reflexivity|vm_compute; reflexivity].
+Qed.
+
+(* quiescent: a job whose last version is not older than any stamp of the archetypes it looks at (and that checks at
+   least one component in each of them) is handed nothing *)
+Theorem C11_caught_up_quiet : forall s j,
+  j_last j <> WV_NULL -> Forall (caught_up j (j_last j)) (archs s) -> exists s1, job_filter s j = Ok (s1, []).
+Proof. exact job_filter_caught_up_quiet. Qed.
+Print Assumptions C11_caught_up_quiet.
+
+(* run the filter; take that run's world version as the job's last version (BaseJob::run, when the run had work); run the
+   filter again on any state with the same archetypes (no write access, dirty mark or structural change in between; the
+   world version may have moved, other state too): nothing is handed over. The hypothesis says that initially no stamp
+   of a looked-at archetype is ahead of the world version; the first run keeps that (C11_run_keeps_caught_up). *)
+Theorem C11_job_filter_twice_quiet : forall s j s1 fas s1',
+  job_filter s j = Ok (s1, fas) -> wv s <> WV_NULL -> Forall (caught_up j (wv s)) (archs s) ->
+  archs s1' = archs s1 ->
+  exists s2, job_filter s1' (relast j (wv s)) = Ok (s2, []).
+Proof. exact job_filter_twice_quiet. Qed.
+Print Assumptions C11_job_filter_twice_quiet.
+
+Theorem C11_run_keeps_caught_up : forall s j s1 fas,
+  job_filter s j = Ok (s1, fas) -> Forall (caught_up j (wv s)) (archs s) ->
+  Forall (caught_up j (wv s)) (archs s1) /\ wv s1 = wv s.
+Proof. exact job_filter_keeps_caught_up. Qed.
+Print Assumptions C11_run_keeps_caught_up.
+
+Example C11_job_filter_twice_quiet_example :
+  wv s_ex <> WV_NULL /\ Forall (caught_up (j_ex 0) (wv s_ex)) (archs s_ex) /\
+  exists s1 fas s2, job_filter s_ex (j_ex 0) = Ok (s1, fas) /\ map fa_count fas = [2] /\
+                    job_filter (inc_wv s1) (relast (j_ex 0) (wv s_ex)) = Ok (s2, []).
+Proof.
+  split; [vm_compute; discriminate|]. split.
+  - let x := eval vm_compute in (archs s_ex) in replace (archs s_ex) with x by (vm_compute; reflexivity).
+    constructor; [|constructor]. intros _. split; [vm_compute; discriminate|].
+    split; cbn [am_gver am_cver]; repeat constructor; vm_compute; discriminate.
+  - eexists. eexists. eexists. split; [vm_compute; reflexivity|]. split; vm_compute; reflexivity.
+Qed.
+
+(* ---- (6) blocks: the count of a filtered archetype is the number of positions below size in flagged chunks; the
+   blocks list exactly those positions, each once, in order (C04_blocks_exact) ---- *)
+Theorem C11_blocks_count_spec : forall cs size ms,
+  0 < cs -> 0 < size -> length ms = S ((size - 1) / cs) ->
+  blocks_count (filter_blocks cs size ms) = length (filter (fun i => nth (i / cs) ms false) (seq 0 size)).
+Proof. exact blocks_count_spec. Qed.
+Print Assumptions C11_blocks_count_spec.
+
+Example C11_blocks_count_example :
+  0 < 2 /\ 0 < 5 /\ length [true; false; true] = S ((5 - 1) / 2) /\
+  filter_blocks 2 5 [true; false; true] = [(0, 2); (4, 5)] /\ blocks_count (filter_blocks 2 5 [true; false; true]) = 3.
+Proof. repeat split; try lia; reflexivity. Qed.
